@@ -1864,7 +1864,7 @@ func explainAlterCommand(sb *strings.Builder, cmd *ast.AlterCommand, indent stri
 		if cmd.Partition != nil {
 			if cmd.PartitionIsID {
 				if lit, ok := cmd.Partition.(*ast.Literal); ok {
-					fmt.Fprintf(sb, "%s Partition_ID Literal_\\'%s\\' (children 1)\n", indent, lit.Value)
+					fmt.Fprintf(sb, "%s Partition_ID Literal_\\'%v\\' (children 1)\n", indent, lit.Value)
 					Node(sb, cmd.Partition, depth+2)
 				} else {
 					fmt.Fprintf(sb, "%s Partition_ID (children 1)\n", indent)
@@ -1934,7 +1934,7 @@ func explainAlterCommand(sb *strings.Builder, cmd *ast.AlterCommand, indent stri
 			} else if cmd.PartitionIsID {
 				// PARTITION ID 'value' is shown as Partition_ID Literal_'value' (children 1)
 				if lit, ok := cmd.Partition.(*ast.Literal); ok {
-					fmt.Fprintf(sb, "%s Partition_ID Literal_\\'%s\\' (children 1)\n", indent, lit.Value)
+					fmt.Fprintf(sb, "%s Partition_ID Literal_\\'%v\\' (children 1)\n", indent, lit.Value)
 					Node(sb, cmd.Partition, depth+2)
 				} else {
 					fmt.Fprintf(sb, "%s Partition_ID (children 1)\n", indent)
@@ -1963,7 +1963,7 @@ func explainAlterCommand(sb *strings.Builder, cmd *ast.AlterCommand, indent stri
 			} else if cmd.PartitionIsID {
 				// PARTITION ID 'value' is shown as Partition_ID Literal_'value' (children 1)
 				if lit, ok := cmd.Partition.(*ast.Literal); ok {
-					fmt.Fprintf(sb, "%s Partition_ID Literal_\\'%s\\' (children 1)\n", indent, lit.Value)
+					fmt.Fprintf(sb, "%s Partition_ID Literal_\\'%v\\' (children 1)\n", indent, lit.Value)
 					Node(sb, cmd.Partition, depth+2)
 				} else {
 					fmt.Fprintf(sb, "%s Partition_ID (children 1)\n", indent)
@@ -2342,7 +2342,7 @@ func explainOptimizeQuery(sb *strings.Builder, n *ast.OptimizeQuery, indent stri
 		} else if n.PartitionByID {
 			// PARTITION ID 'value' is shown as Partition_ID Literal_'value' (children 1)
 			if lit, ok := n.Partition.(*ast.Literal); ok {
-				fmt.Fprintf(sb, "%s Partition_ID Literal_\\'%s\\' (children 1)\n", indent, lit.Value)
+				fmt.Fprintf(sb, "%s Partition_ID Literal_\\'%v\\' (children 1)\n", indent, lit.Value)
 				Node(sb, n.Partition, depth+2)
 			} else {
 				fmt.Fprintf(sb, "%s Partition_ID (children 1)\n", indent)
